@@ -122,6 +122,14 @@ pub fn dispatch(v: &Value) -> Value {
                 Err(e) => json!({"err": e.chars().take(200).collect::<String>()}),
             }
         }
+        "input_ops" => {
+            let src = s(v, "src");
+            let ops: Vec<Option<(usize, usize)>> = v["ops"].as_array().map(|a| a.iter().map(|o| {
+                o.as_array().map(|p| (p[0].as_u64().unwrap() as usize, p[1].as_u64().unwrap() as usize))
+            }).collect()).unwrap_or_default();
+            let out = hk::input_ops(&src, &ops);
+            json!({"ok": out.iter().map(|t| json!([t.0, t.1, t.2, t.3, t.4, t.5])).collect::<Vec<_>>()})
+        }
         "charset" => {
             let st = crate::ir::string_type(v.get("cs")).unwrap();
             let cs: Vec<u32> = hk::character_set(st).into_iter().map(|c| c as u32).collect();
